@@ -160,13 +160,13 @@ theorem pBin_renderTop (c : Cfg) (e : Expr) (h : wfE e = true) :
     pBin c (fuelFor (renderTop e)) 0 (renderTop e) = some (normCtx e, []) := by
   by_cases hr : e = .root
   · subst hr
-    have hin := tower (c := c) (x := .root) (ts := [T (.p .slash)]) (rest := []) (L := 8) (K := 0) (by omega)
+    have hin := tower (c := c) (x := .root) (ts := [U (.p .slash)]) (rest := []) (L := 8) (K := 0) (by omega)
       (by
         intro f R hf ha
         obtain ⟨f, rfl⟩ : ∃ f', f = f' + 1 := ⟨f - 1, by omega⟩
         rw [entryThen_8, Nat.add_zero, pPath_succ]
         rw [after_8] at ha
-        simpa [T, startsStep, pathCont] using ha)
+        simpa [T, U, startsStep, pathCont] using ha)
       8 0 (by omega) rfl 1 (.root, []) (Nat.le_refl _) (by rw [after_bin (by omega)]; rfl)
     rw [entryThen_bin (by omega)] at hin
     exact pBin_mono hin (by simp [renderTop, fuelFor])
@@ -191,7 +191,8 @@ theorem parse_render_model (e : Expr) (h : wfE e = true) :
 theorem parse_render_spec (e : Expr) (h : wfE e = true) :
     parseToks cfgSpec (renderTop e) = some (normCtx e) := parse_render cfgSpec rfl e h
 
-/-- rendered tokens are all marked adjacent, so the adjacency switch does not matter -/
+/-- rendered tokens are marked adjacent wherever the parser may ask for it (inside QName, `p:*`,
+    `*:x`, Number), so the adjacency switch does not matter -/
 theorem parse_render_any (c : Cfg) (e : Expr) (h : wfE e = true) :
     parseToks c (renderTop e) = some (normCtx e) := by
   unfold parseToks
